@@ -92,9 +92,12 @@ BDivSmall(a, d) == BNorm(DivR(a, d, Len(a), 0).q)
 BCeilDivSmall(a, d) == BDivSmall(BAdd(a, B(d - 1)), d)
 
 Two16 == 65536
-Two32 == BMul(B(Two16), B(Two16))
-Two64 == BMul(Two32, Two32)
-U64Max == BSub(Two64, B(1))
+\* written out (TLC re-evaluates non-trivial constant definitions at every use):
+\* 2^32 = 4294967296, 2^64 = 18446744073709551616; ASSUME below checks them
+Two32 == <<7296, 9496, 42>>
+Two64 == <<1616, 955, 737, 6744, 1844>>
+U64Max == <<1615, 955, 737, 6744, 1844>>
+ASSUME Two32 = BMul(B(Two16), B(Two16)) /\ Two64 = BMul(Two32, Two32) /\ U64Max = BSub(Two64, B(1))
 BMod32(a) == IF BLt(a, Two32) THEN a
              ELSE BSub(a, BMul(BDivSmall(BDivSmall(a, Two16), Two16), Two32))
 BMod64(a) == IF BLt(a, Two64) THEN a
@@ -154,45 +157,51 @@ Weight(ss, sig) == 4 * (4 + 1 + 41 + 1 + SumLens(ss) + 4) + (2 + 1 + 4 + 2 * sig
 PresentScripts(a) == (IF BZero(a.vh) THEN <<>> ELSE <<a.sh>>) \o (IF BZero(a.vc) THEN <<>> ELSE <<a.sc>>)
 Sum(a)  == BAdd(a.vh, a.vc)
 Fee(w, a) == BSub(w.chv, Sum(a))                          \* only when Sum(a) <= chv
-Fee1000(w, a) == BMulSmall(Fee(w, a), 1000)
+
+\* terms shared by the rules (computed once per assignment): x = [funds, f1000, ps]
+\*   funds  the outputs exceed the funding output;  f1000 = fee * 1000;  ps = scripts of the outputs
+Terms(w, a) == LET sum == Sum(a)
+                   funds == BLt(w.chv, sum) IN
+               [funds |-> funds,
+                f1000 |-> IF funds THEN <<>> ELSE BMulSmall(BSub(w.chv, sum), 1000),
+                ps |-> PresentScripts(a)]
 
 RuleNames == {"commitments", "shape", "htlcs", "funds", "fee_low", "fee_high", "value", "dest", "upfront"}
 
 \* both latest commitments must exist (there is no balance to compare with otherwise)
-Rule_commitments(w, a) == ~w.hc.p \/ ~w.cc.p
+Rule_commitments(w, a, x) == ~w.hc.p \/ ~w.cc.p
 \* an output with a value needs a script
-Rule_shape(w, a) == (~BZero(a.vh) /\ a.sh = NoScr) \/ (~BZero(a.vc) /\ a.sc = NoScr)
+Rule_shape(w, a, x) == (~BZero(a.vh) /\ a.sh = NoScr) \/ (~BZero(a.vc) /\ a.sc = NoScr)
 \* no HTLC is pending in either current commitment
-Rule_htlcs(w, a) == (w.hc.p /\ w.hc.n > 0) \/ (w.cc.p /\ w.cc.n > 0)
+Rule_htlcs(w, a, x) == (w.hc.p /\ w.hc.n > 0) \/ (w.cc.p /\ w.cc.n > 0)
 \* the outputs cannot exceed the funding output (the fee would be negative)
-Rule_funds(w, a) == BLt(w.chv, Sum(a))
+Rule_funds(w, a, x) == x.funds
 \* fee within the policy range; the one-unit / +-1-byte-signature tolerance favours acceptance
-Rule_fee_low(w, a) == /\ ~Rule_funds(w, a)
-                      /\ w.minr # <<>>
-                      /\ BLt(BAdd(Fee1000(w, a), B(999)),
-                             BMulSmall(BSub(w.minr, B(1)), Weight(PresentScripts(a), 71)))
-Rule_fee_high(w, a) == /\ ~Rule_funds(w, a)
-                       /\ BLeq(BMulSmall(BAdd(w.maxr, B(1)), Weight(PresentScripts(a), 73)), Fee1000(w, a))
+Rule_fee_low(w, a, x) == /\ ~x.funds
+                         /\ w.minr # <<>>
+                         /\ BLt(BAdd(x.f1000, <<999>>), BMulSmall(BSub(w.minr, <<1>>), Weight(x.ps, 71)))
+Rule_fee_high(w, a, x) == /\ ~x.funds
+                          /\ BLeq(BMulSmall(BAdd(w.maxr, <<1>>), Weight(x.ps, 73)), x.f1000)
 \* the side that does not pay the fee gets its balance of BOTH latest commitments, within epsilon
 Outside(v, b, eps) == BLt(eps, BAbsDiff(v, b))
-Rule_value(w, a) == /\ w.hc.p /\ w.cc.p
-                    /\ IF w.out THEN Outside(a.vc, w.cc.c, w.eps) \/ Outside(a.vc, w.hc.c, w.eps)
-                                ELSE Outside(a.vh, w.hc.h, w.eps) \/ Outside(a.vh, w.cc.h, w.eps)
+Rule_value(w, a, x) == /\ w.hc.p /\ w.cc.p
+                       /\ IF w.out THEN Outside(a.vc, w.cc.c, w.eps) \/ Outside(a.vc, w.hc.c, w.eps)
+                                   ELSE Outside(a.vh, w.hc.h, w.eps) \/ Outside(a.vh, w.cc.h, w.eps)
 \* any holder output goes to a wallet-derivable or allowlisted script ...
-Rule_dest(w, a) == ~BZero(a.vh) /\ a.sh # NoScr /\ ~Allowed(a.sh, w.allow)
+Rule_dest(w, a, x) == ~BZero(a.vh) /\ a.sh # NoScr /\ ~Allowed(a.sh, w.allow)
 \* ... which must be the upfront shutdown script if one was fixed
-Rule_upfront(w, a) == ~BZero(a.vh) /\ w.upfront # "none" /\ a.sh.id # w.upfront
+Rule_upfront(w, a, x) == ~BZero(a.vh) /\ w.upfront # "none" /\ a.sh.id # w.upfront
 
-Rule(r, w, a) == CASE r = "commitments" -> Rule_commitments(w, a)
-                   [] r = "shape"       -> Rule_shape(w, a)
-                   [] r = "htlcs"       -> Rule_htlcs(w, a)
-                   [] r = "funds"       -> Rule_funds(w, a)
-                   [] r = "fee_low"     -> Rule_fee_low(w, a)
-                   [] r = "fee_high"    -> Rule_fee_high(w, a)
-                   [] r = "value"       -> Rule_value(w, a)
-                   [] r = "dest"        -> Rule_dest(w, a)
-                   [] r = "upfront"     -> Rule_upfront(w, a)
-Failing(w, a) == {r \in RuleNames : Rule(r, w, a)}
+Rule(r, w, a, x) == CASE r = "commitments" -> Rule_commitments(w, a, x)
+                      [] r = "shape"       -> Rule_shape(w, a, x)
+                      [] r = "htlcs"       -> Rule_htlcs(w, a, x)
+                      [] r = "funds"       -> Rule_funds(w, a, x)
+                      [] r = "fee_low"     -> Rule_fee_low(w, a, x)
+                      [] r = "fee_high"    -> Rule_fee_high(w, a, x)
+                      [] r = "value"       -> Rule_value(w, a, x)
+                      [] r = "dest"        -> Rule_dest(w, a, x)
+                      [] r = "upfront"     -> Rule_upfront(w, a, x)
+Failing(w, a) == LET x == Terms(w, a) IN {r \in RuleNames : Rule(r, w, a, x)}
 
 (***************************************************************************)
 (* A request is  [entry |-> "p2", a |-> a]  (sign_mutual_close_tx_phase2:   *)
@@ -213,15 +222,25 @@ Assignments(req) ==
                            Asg(o[2].v, o[1].v, o[2].s, o[1].s, o[2].hint)}
          [] OTHER      -> {}
 FailSets(w, req) == {Failing(w, a) : a \in Assignments(req)}
-MustRefuse(w, req) == {} \notin FailSets(w, req)
+MustRefuseF(fs) == {} \notin fs
+MustRefuse(w, req) == MustRefuseF(FailSets(w, req))
 \* the rules that are, alone, the reason for the refusal (coverage / finding key)
-SoleRules(w, req) == IF ~MustRefuse(w, req) THEN {}
-                     ELSE {r \in RuleNames : {r} \in FailSets(w, req)}
+SoleRulesF(fs) == IF ~MustRefuseF(fs) THEN {} ELSE {r \in RuleNames : {r} \in fs}
+SoleRules(w, req) == SoleRulesF(FailSets(w, req))
 \* smallest set of failed rules over the assignments (named in the finding key)
-MinFail(w, req) ==
-  LET fs == FailSets(w, req) IN
-  IF fs = {} THEN {"shape"}
-  ELSE CHOOSE f \in fs : \A x \in fs : Cardinality(f) <= Cardinality(x)
+MinFailF(fs) == IF fs = {} THEN {"shape"}
+                ELSE CHOOSE f \in fs : \A x \in fs : Cardinality(f) <= Cardinality(x)
+MinFail(w, req) == MinFailF(FailSets(w, req))
+\* arithmetic extreme of the fee (part of the finding key): the true fee rate does not fit 32 bits /
+\* fee * 1000 does not fit 64 bits
+FeeNoteA(w, a) == LET x == Terms(w, a) IN
+                  IF x.funds THEN ""
+                  ELSE IF BLeq(Two64, x.f1000) THEN "fee*1000>=2^64"
+                  ELSE IF BLeq(BMulSmall(Two32, Weight(x.ps, 71)), x.f1000) THEN "rate>=2^32"
+                  ELSE ""
+FeeNote(w, req) == LET ns == {FeeNoteA(w, a) : a \in Assignments(req)} IN
+                   IF "fee*1000>=2^64" \in ns THEN "fee*1000>=2^64"
+                   ELSE IF "rate>=2^32" \in ns THEN "rate>=2^32" ELSE ""
 
 ---------------------------------------------------------------------------
 (***************************************************************************)
@@ -243,14 +262,15 @@ CodeRate(fee, weight) == BMod32(BDivSmall(BMod64(BAdd(BMod64(BMulSmall(fee, 1000
 
 \* simple_validator.rs validate_mutual_close_tx
 ImplValidate(w, a) ==
+  LET sum == Sum(a) IN
   IF ~w.hc.p \/ ~w.cc.p THEN Err("no_commitment")
   ELSE IF ~BZero(a.vh) /\ a.sh = NoScr THEN Err("missing_script")
   ELSE IF ~BZero(a.vc) /\ a.sc = NoScr THEN Err("missing_script")
   ELSE IF w.upfront # "none" /\ ~BZero(a.vh) /\ a.sh.id # w.upfront THEN Err("upfront")
   ELSE IF w.hc.n > 0 \/ w.cc.n > 0 THEN Err("htlcs")
-  ELSE IF BLt(U64Max, Sum(a)) THEN Err("overflow")
-  ELSE IF BLt(w.chv, Sum(a)) THEN Err("fee_underflow")
-  ELSE LET rate == CodeRate(Fee(w, a), Weight(PresentScripts(a), 72)) IN
+  ELSE IF BLt(U64Max, sum) THEN Err("overflow")
+  ELSE IF BLt(w.chv, sum) THEN Err("fee_underflow")
+  ELSE LET rate == CodeRate(BSub(w.chv, sum), Weight(PresentScripts(a), 72)) IN
   IF BLt(rate, w.minr) THEN Err("fee_low")
   ELSE IF BLt(w.maxr, rate) THEN Err("fee_high")
   ELSE IF (IF w.out THEN Outside(a.vc, w.cc.c, w.eps) \/ Outside(a.vc, w.hc.c, w.eps)
@@ -300,13 +320,14 @@ ImplStep(w, req) == IF req.entry = "p2" THEN ImplValidate(w, req.a) ELSE ImplDec
 (* "none"); channel_closed read back; and read back from a signer restored  *)
 (* from a copy of the store.                                                *)
 (***************************************************************************)
-Verdict(w, req, obs) ==
+VerdictF(must, obs) ==
   IF ~obs.ok THEN "refused"
-  ELSE IF MustRefuse(w, req) THEN "signed_must_refuse"
+  ELSE IF must THEN "signed_must_refuse"
   ELSE IF obs.sig # "canon" THEN "bad_signature_target"
   ELSE IF ~obs.closed THEN "not_marked_closed"
   ELSE IF ~obs.closedr THEN "closed_not_durable"
   ELSE "signed_ok"
+Verdict(w, req, obs) == VerdictF(obs.ok /\ MustRefuse(w, req), obs)
 IsViolation(v) == v \in {"signed_must_refuse", "bad_signature_target", "not_marked_closed", "closed_not_durable"}
 
 ---------------------------------------------------------------------------
